@@ -142,8 +142,11 @@ def impl_generate(n, pairs):
 def exact_or_far(v, w):
     """The floating-point differences the code computes are exact, or far from the tolerance."""
     for a, b in zip(v, w):
+        fd = abs(a - b)
+        if fd < 0.98e-10 or fd > 1.02e-10:      # far from the tolerance whatever the rounding (relative error <= 2^-53)
+            continue
         d = abs(Fraction(a) - Fraction(b))
-        if Fraction(abs(a - b)) != d and TOL * 99 / 100 < d < TOL * 101 / 100:
+        if Fraction(fd) != d and TOL * 99 / 100 < d < TOL * 101 / 100:
             return False
     return True
 
@@ -285,7 +288,7 @@ def run(ctx):
                         "1% of the tolerance are skipped (counted as skipped_rounding)",
                         "hash(tuple(vector)) is abstracted to 'a function of the numeric vector'; only 'identical vectors => identical "
                         "hashes' is checked, hash collisions of different vectors are allowed"]
-    n_pairs = 6000 if ctx.quick else 150000
+    n_pairs = 6000 if ctx.quick else 100000
     maxlen = 10 if ctx.quick else 30
     cases = []
     while len(cases) < n_pairs:
@@ -329,7 +332,7 @@ def run(ctx):
     if ctx.failures:
         return
     # ---- consumers on lists
-    n_lists = 2500 if ctx.quick else 40000
+    n_lists = 2500 if ctx.quick else 25000
     lcases = []
     while len(lcases) < n_lists:
         x, vs = gen_list(rng, 10 if ctx.quick else 25, 5)
@@ -368,7 +371,7 @@ def run(ctx):
     if ctx.failures:
         return
     # ---- duplicate rejection in GeneticAlgorithm.generate
-    n_streams = 700 if ctx.quick else 12000
+    n_streams = 700 if ctx.quick else 8000
     scases = []
     while len(scases) < n_streams:
         n, pairs = gen_stream(rng, 8 if ctx.quick else 16, 4)
